@@ -3,6 +3,7 @@ package main
 
 import (
 	"encoding/base64"
+	"encoding/json"
 	"fmt"
 	"math/rand"
 	"net/url"
@@ -86,7 +87,8 @@ func secJSON(alts []alt) []any {
 func buildSpec(title string, global []alt, ops []opInfo, principalModel bool) J {
 	paths := J{}
 	for _, op := range ops {
-		o := J{"operationId": op.opID, "responses": J{"200": J{"description": "ok"}, "default": J{"description": "error"}}}
+		o := J{"operationId": op.opID, "responses": J{"200": J{"description": "ok"}, "default": J{"description": "error"}},
+			"parameters": []any{J{"name": "need", "in": "query", "type": "integer", "minimum": json.Number("1"), "required": true}}}
 		if op.atom.explicit {
 			o["security"] = secJSON(op.atom.security)
 		}
@@ -134,9 +136,14 @@ type cred struct {
 }
 
 // buildRequest renders credentials; ok=false when they cannot be presented together.
-func buildRequest(id string, op opInfo, creds map[string]cred) (servrig.Req, bool) {
+func buildRequest(id string, op opInfo, creds map[string]cred, validParams bool) (servrig.Req, bool) {
 	r := servrig.Req{ID: id, Method: op.method, URL: "/sec" + op.path, Header: map[string][]string{}}
 	q := url.Values{}
+	if validParams {
+		q.Set("need", "5")
+	} else {
+		q.Set("need", "0") // violates minimum 1
+	}
 	authUsed := ""
 	for _, name := range sortedKeys(creds) {
 		cr := creds[name]
@@ -299,9 +306,10 @@ func main() {
 			return
 		}
 		type pend struct {
-			op    opInfo
-			creds map[string]cred
-			label string
+			op          opInfo
+			creds       map[string]cred
+			label       string
+			validParams bool
 		}
 		var reqs []servrig.Req
 		cases := map[string]pend{}
@@ -363,12 +371,26 @@ func main() {
 					evalCreds := creds
 					id := fmt.Sprintf("%s/%d", op.opID, n)
 					n++
-					r, ok := buildRequest(id, op, creds)
+					r, ok := buildRequest(id, op, creds, true)
 					if !ok {
 						return
 					}
 					reqs = append(reqs, r)
-					cases[id] = pend{op: op, creds: evalCreds, label: strings.Join(lbl, ",")}
+					cases[id] = pend{op: op, creds: evalCreds, label: strings.Join(lbl, ","), validParams: true}
+					// the same credentials on a request whose parameters are invalid: authentication
+					// comes first, so an unsatisfied requirement must still give 401/403
+					uniform := true
+					for k := range states {
+						if states[k] != states[0] {
+							uniform = false
+						}
+					}
+					if uniform {
+						id2 := id + "/badparams"
+						r2, _ := buildRequest(id2, op, creds, false)
+						reqs = append(reqs, r2)
+						cases[id2] = pend{op: op, creds: evalCreds, label: strings.Join(lbl, ",") + ",params=invalid", validParams: false}
+					}
 					return
 				}
 				maxState := invalid
@@ -423,6 +445,18 @@ func main() {
 			outcome := "denied"
 			if reached {
 				outcome = "served"
+			}
+			if !p.validParams {
+				pattern += ",params=invalid"
+				c.Eval(shape + "/" + pattern + "/" + outcome + cfg)
+				key := fmt.Sprintf("C06/%s/%s", shape, pattern)
+				switch {
+				case reached:
+					c.Violation(key+"/handler-run-with-invalid-params"+cfg, "the handler ran for a request whose parameters violate the spec", files)
+				case !open && !sat && a.Status != 401 && a.Status != 403:
+					c.Violation(key+"/validated-before-authenticated"+cfg, fmt.Sprintf("a request that satisfies no alternative of the requirement and also has invalid parameters is answered %d instead of 401/403: parameters are validated (and their errors disclosed) before the caller is authenticated; body %s", a.Status, core.OneLine(string(a.Body()))), files)
+				}
+				continue
 			}
 			c.Eval(shape + "/" + pattern + "/" + outcome + cfg)
 			key := fmt.Sprintf("C06/%s/%s", shape, pattern)
